@@ -861,6 +861,20 @@ func c01(r *hx.Run) {
 		}, []string{"forgery", "kind:" + k.name, "breaks:" + k.expect}}
 	})
 
+	// ---- (b') a genuine quote and tampered copies of it (same signatures) verified at the same time, own options each
+	{
+		rng := caseRng(r, 8, 0)
+		base := world.Build(honestSpec(rng))
+		base.Spec.Fault = "genuine"
+		ws := []*world.World{base,
+			deriveWorld(base, "body-field-changed-after-signing", false, false, func(q *pb.QuoteV4) { q.TdQuoteBody.MrTd[3] ^= 0x10 }),
+			deriveWorld(base, "rtmr-changed-after-signing", false, false, func(q *pb.QuoteV4) { q.TdQuoteBody.Rtmrs[2][7] ^= 1 }),
+			deriveWorld(base, "header-field-changed-after-signing", false, false, func(q *pb.QuoteV4) { q.Header.UserData[0] ^= 0x80 }),
+			deriveWorld(base, "reportdata-changed-after-signing", false, false, func(q *pb.QuoteV4) { q.TdQuoteBody.ReportData[63] ^= 1 }),
+			deriveWorld(base, "genuine-again", false, false, nil)}
+		cvConcurrent(r, "C01", ws, map[bool]time.Duration{true: 8 * time.Second, false: 2 * time.Second}[thorough])
+	}
+
 	// ---- (c) random multi-byte mutants of message fields
 	nBase, nRand := 16, 2000
 	if thorough {
